@@ -248,6 +248,62 @@ func isDrainCallOf(in ssa.Instruction, ch ssa.Value) bool {
 	return false
 }
 
+// exhaustedEdgesOfPath: the ok==false edges of comma-ok receives (range loops) on the channel named dataPath.
+func exhaustedEdgesOfPath(fn *ssa.Function, res resolver, dataPath string) []Edge {
+	var es []Edge
+	instrsOf(fn, func(in ssa.Instruction) {
+		u, ok := in.(*ssa.UnOp)
+		if !ok || u.Op != token.ARROW || !u.CommaOk || res(u.X) != dataPath {
+			return
+		}
+		for _, ref := range *u.Referrers() {
+			if e, ok := ref.(*ssa.Extract); ok && e.Index == 1 {
+				es = append(es, falseEdges(fn, e)...)
+			}
+		}
+	})
+	return es
+}
+
+// consumesOnlyArg: call x hands channel v to a same-package helper that only receives from it, drains it, or
+// hands it on to such a helper (a partial consumer: the caller's walk follows it).
+func consumesOnlyArg(x *ssa.Call, v ssa.Value, depth int) bool {
+	h := x.Call.StaticCallee()
+	if h == nil || !isRepoFunc(h) || len(h.Blocks) == 0 || depth <= 0 {
+		return false
+	}
+	ok := false
+	for k, a := range x.Call.Args {
+		if !sameVal(a, v) || k >= len(h.Params) {
+			continue
+		}
+		ok = true
+		var check func(pv ssa.Value) bool
+		check = func(pv ssa.Value) bool {
+			for _, ref := range *pv.Referrers() {
+				switch y := ref.(type) {
+				case *ssa.UnOp, *ssa.DebugRef:
+				case *ssa.ChangeType:
+					if !check(y) {
+						return false
+					}
+				case *ssa.Call:
+					if !isDrainCallOf(y, pv) && !consumesOnlyArg(y, pv, depth-1) {
+						return false
+					}
+				default:
+					return false
+				}
+			}
+			return true
+		}
+		if !check(h.Params[k]) {
+			return false
+		}
+	}
+	return ok
+}
+
 // loopOf returns the blocks of the consumption loop of a receive: blocks reachable from the recv
 // block from which the recv block is reachable again.
 func loopOf(recvBlock *ssa.BasicBlock, cut map[Edge]bool) map[*ssa.BasicBlock]bool {
@@ -367,7 +423,7 @@ func runC08(w *World, r *Report) {
 	}
 	r.Extra["dag_methods_taking_graph_lock"] = len(takers)
 
-	r.rule("drain", "after a successful call of a lock-holding stream every path to a function exit (or back to the call) crosses the exhausted edge of a receive on the data channel, directly or in a helper that drains it", 5)
+	r.rule("drain", "after a successful call of a lock-holding stream every path to a function exit (or back to the call) crosses the exhausted edge of a receive on the data channel, directly or in a helper that drains it", 3)
 	r.rule("no-send-on-stop", "no send on the stop channel of a stream whose producer closes it (send after close panics; a send does not release a parked producer)", 0)
 	r.rule("reentry-under-ledger-lock", "a consumption region that re-enters the graph lock holds the ledger lock, so no graph writer can queue between producer and consumer", 3)
 	r.rule("graph-writers-under-ledger-lock", "every call that takes the graph lock exclusively holds AccountingBook.mux exclusively", 6)
@@ -397,7 +453,7 @@ func runC08(w *World, r *Report) {
 					case *ssa.ChangeType:
 						checkUses(x)
 					case *ssa.Call:
-						if !isDrainCallOf(x, data) {
+						if !isDrainCallOf(x, data) && !consumesOnlyArg(x, v, 2) {
 							r.undecided("drain", site+"/escape", lineOf(w, x), "data channel may only be received from or handed to a drain helper", "passed to a call that is not a drain helper")
 						}
 					default:
@@ -406,14 +462,67 @@ func runC08(w *World, r *Report) {
 				}
 			}
 			checkUses(data)
-			recvs, exh := exhaustedEdges(fn, data)
-			cut := edgeSet(exh)
+			recvs, _ := exhaustedEdges(fn, data)
+			dataPath := pathOf(data)
+			var notStarted map[Edge]bool
 			if ev := errResult(c); ev != nil {
+				notStarted = map[Edge]bool{}
 				for _, e := range errNonNilEdges(fn, ev) {
-					cut[e] = true // walker not started on the error path
+					notStarted[e] = true // walker not started on the error path
 				}
 			}
-			exits := exitsAvoiding(c, cut, func(in ssa.Instruction) bool { return isDrainCallOf(in, data) })
+			// the walk follows helpers that receive from the channel: their exhausted edges count, their returns do not
+			var exits []ssa.Instruction
+			dw := newDeepWalk(func(in ssa.Instruction, fr *frame) bool {
+				if cc, ok := in.(*ssa.Call); ok {
+					if cal := cc.Call.StaticCallee(); cal != nil && isRepoFunc(cal) {
+						for k, a := range cc.Call.Args {
+							if fr.cx.res(a) == dataPath && drainsParam(cal, k) {
+								return true
+							}
+						}
+					}
+				}
+				switch x := in.(type) {
+				case *ssa.Return:
+					if fr.top() && !(fn.Recover != nil && x.Block() == fn.Recover) {
+						exits = append(exits, in)
+						return true
+					}
+				case *ssa.Panic:
+					if !isSelectNoCasePanic(x) {
+						exits = append(exits, in)
+					}
+					return true
+				}
+				return false
+			})
+			dw.cutFixed = notStarted
+			dw.cutSpec = func(fn2 *ssa.Function, res resolver) []Edge {
+				var es []Edge
+				instrsOf(fn2, func(in ssa.Instruction) {
+					u, ok := in.(*ssa.UnOp)
+					if !ok || u.Op != token.ARROW || !u.CommaOk || res(u.X) != dataPath {
+						return
+					}
+					for _, ref := range *u.Referrers() {
+						if e, ok := ref.(*ssa.Extract); ok && e.Index == 1 {
+							es = append(es, falseEdges(fn2, e)...)
+						}
+					}
+				})
+				return es
+			}
+			dw.descend = func(h *ssa.Function) bool { // only helpers that are handed a channel matter
+				for _, p := range h.Params {
+					if _, isChan := p.Type().Underlying().(*types.Chan); isChan {
+						return true
+					}
+				}
+				return false
+			}
+			ci := c.(ssa.Instruction)
+			dw.run(topFrame(fn), ci.Block(), indexIn(ci.Block(), ci)+1)
 			// also: reaching the call again without draining
 			if len(exits) == 0 {
 				r.ok("drain", site, lineOf(w, c), "all paths after the call drain the walker")
@@ -462,14 +571,40 @@ func runC08(w *World, r *Report) {
 				}
 			}
 			// consumption region = loop blocks of the receives
-			region := map[*ssa.BasicBlock]bool{}
-			for _, rv := range recvs {
-				for b := range loopOf(rv.Block(), edgeSet(exh)) {
-					region[b] = true
+			region := map[*ssa.BasicBlock]ssa.Value{} // block → the data channel as it is named in the block's function
+			var addRegion func(f2 *ssa.Function, ch ssa.Value, depth int)
+			addRegion = func(f2 *ssa.Function, ch ssa.Value, depth int) {
+				rv2, exh2 := exhaustedEdges(f2, ch)
+				for _, rv := range rv2 {
+					for b := range loopOf(rv.Block(), edgeSet(exh2)) {
+						region[b] = ch
+					}
 				}
+				if depth <= 0 {
+					return
+				}
+				// the receive may sit in a helper that is handed the channel: the loop around that call is part of
+				// the region, and so is the helper's own receive loop
+				instrsOf(f2, func(in ssa.Instruction) {
+					x, ok := in.(*ssa.Call)
+					if !ok || isDrainCallOf(x, ch) || !consumesOnlyArg(x, ch, 2) {
+						return
+					}
+					for b := range loopOf(x.Block(), edgeSet(exh2)) {
+						region[b] = ch
+					}
+					h := x.Call.StaticCallee()
+					for k, a := range x.Call.Args {
+						if sameVal(a, ch) && k < len(h.Params) {
+							addRegion(h, h.Params[k], depth-1)
+						}
+					}
+				})
 			}
+			addRegion(fn, data, 2)
+			_ = recvs
 			reenters := false
-			for b := range region {
+			for b, data := range region {
 				for _, in := range b.Instrs {
 					switch x := in.(type) {
 					case *ssa.Call:
